@@ -60,7 +60,10 @@ extern "C" void h_c12_setup() { px = nullptr; }
 extern "C" void h_c12_step() {
   int single_thread = verif_choice("single_thread", 3) - 1;       // -1: the first thread to arrive, 0, 1
   int reverse = verif_choice("reverse_order", 2);
-  verif_omp_config(8, single_thread, reverse);
+  // quick: 8 logical threads (every work item on its own thread); thorough: also 2 and 3 threads (work items share threads in contiguous chunks)
+  static const int TC[3] = {8, 2, 3};
+  int nthreads = TC[verif_choice("threads", (int) verif_param("thread_counts", 1))];
+  verif_omp_config(nthreads, single_thread, reverse);
   cvm::real X[6], TF[8];
   static const char *XN[6] = {"x0","y0","z0","x1","y1","z1"}; static const char *TN[8] = {"t00","t01","t02","t03","t10","t11","t12","t13"};
   for (int i = 0; i < 6; i++) { X[i] = verif_sym_double(XN[i]); verif_assume(X[i] > 0.25 && X[i] < 4.0); }
